@@ -624,8 +624,14 @@ impl<R: ReadRepository> cob::Evaluate<R> for Identity {
     ) -> Result<(), Self::Error> {
         let op = Op::try_from(entry)?;
 
-        self.op(op, concurrent.map(|(_, e)| e), repo)
-            .map_err(Error::Apply)
+        // Apply the operation to a copy, so that an operation that is rejected
+        // half-way through leaves no trace in the state.
+        let mut next = self.clone();
+        next.op(op, concurrent.map(|(_, e)| e), repo)
+            .map_err(Error::Apply)?;
+        *self = next;
+
+        Ok(())
     }
 }
 
